@@ -338,7 +338,7 @@ def point_mid(pt1, pt2):
     return point_translate(pt1, half_dist_vector)
 
 
-@lru_cache(maxsize=os.environ['GEOMDL_CACHE_SIZE'] if "GEOMDL_CACHE_SIZE" in os.environ else 16)
+@lru_cache(maxsize=int(os.environ['GEOMDL_CACHE_SIZE']) if "GEOMDL_CACHE_SIZE" in os.environ else 16)
 def matrix_identity(n):
     """ Generates a :math:`N \\times N` identity matrix.
 
@@ -529,7 +529,7 @@ def triangle_center(tri, uv=False):
     return tuple(mid)
 
 
-@lru_cache(maxsize=os.environ['GEOMDL_CACHE_SIZE'] if "GEOMDL_CACHE_SIZE" in os.environ else 128)
+@lru_cache(maxsize=int(os.environ['GEOMDL_CACHE_SIZE']) if "GEOMDL_CACHE_SIZE" in os.environ else 128)
 def binomial_coefficient(k, i):
     """ Computes the binomial coefficient (denoted by *k choose i*).
 
